@@ -490,7 +490,10 @@ fn run_single_program(
 
             // our strings do not have '\x00' bytes in them,
             // we can use CString::new().expect() safely.
+            // `NAME=v cmd` overrides an exported NAME for this command (an
+            // appended duplicate entry would lose against the inherited one)
             let mut c_envs: Vec<_> = env::vars()
+                .filter(|(k, _)| !cl.envs.contains_key(k))
                 .map(|(k, v)| {
                     CString::new(format!("{}={}", k, v).as_str()).expect("CString error")
                 })
